@@ -348,6 +348,12 @@ func (r *frun) exec(op fop, rng *rt.Rand) {
 		st.T0 = time.Now()
 		_, st.Err = r.Sink.Process(ctx, ev)
 		st.T1 = time.Now()
+	case "emptywrite":
+		st.Rec = []byte{}
+		ev := &eventlogger.Event{Type: "t", CreatedAt: time.Now(), Formatted: map[string][]byte{r.format(): {}, "other": []byte("WRONG-FORMAT\n")}}
+		st.T0 = time.Now()
+		_, st.Err = r.Sink.Process(ctx, ev)
+		st.T1 = time.Now()
 	case "unformatted":
 		before := snapshot(r.Dir)
 		_, dirErr := os.Stat(r.Dir)
@@ -413,7 +419,7 @@ func genCfg(r *rt.Rand) fcfg {
 	c := fcfg{
 		MaxBytes: rt.Pick(r, []int{0, 1, 50, 120, 300}),
 		MaxFiles: r.Intn(4),
-		MaxDurMS: rt.Pick(r, []int{0, 0, 0, 30}),
+		MaxDurMS: rt.Pick(r, []int{0, 0, 0, 30, 30, -1, -3600000}), // a non-positive MaxDuration is no age limit
 		TSOnly:   r.Bool(),
 		Mode:     rt.Pick(r, []os.FileMode{0, 0, 0o600, 0o640, 0o644, 0o666, 0o660, 0o664, 0o622}),
 		FileName: rt.Pick(r, []string{"audit.log", "audit.log", "audit", "ev.json", "catalog.log", "session.json", "a.b.log"}),
@@ -431,6 +437,10 @@ func genOps(r *rt.Rand, c fcfg, n int) []fop {
 		case x < 6:
 			// an event that has no value in the sink's format: rejected, and not a write
 			ops = append(ops, fop{Kind: "unformatted"})
+		case x < 10:
+			// an event whose value in the sink's format is empty: a write of zero bytes is a write (it opens,
+			// creates and rotates like any other)
+			ops = append(ops, fop{Kind: "emptywrite"})
 		case x < 72:
 			l := r.Range(8, 200)
 			if c.MaxBytes > 8 && r.Intn(3) == 0 {
